@@ -538,8 +538,21 @@ func runC39Stream(p c39Stream) c39Run {
 			res.labels = append(res.labels, "stream:abrupt:"+p.Ends[0].CloseBy+"+"+p.Ends[1].CloseBy)
 		}
 		res.viols = viols
+		res.labels = uniq(res.labels)
 		return res
 	})
+}
+
+func uniq(in []string) []string {
+	seen := map[string]bool{}
+	var out []string
+	for _, s := range in {
+		if !seen[s] {
+			seen[s] = true
+			out = append(out, s)
+		}
+	}
+	return out
 }
 
 func genC39Stream(t *rapid.T) c39Stream {
@@ -555,6 +568,8 @@ func genC39Stream(t *rapid.T) c39Stream {
 			w := c39Write{Len: chunk.Draw(t, "len"), Yields: rapid.IntRange(0, 3).Draw(t, "wy")}
 			if rapid.IntRange(0, 9).Draw(t, "ws?") == 0 {
 				w.SleepUS = rapid.IntRange(1, 300).Draw(t, "wsleep")
+			} else if noise && rapid.IntRange(0, 3).Draw(t, "wslong?") == 0 {
+				w.SleepUS = rapid.IntRange(500, 4000).Draw(t, "wsleepLong") // long enough for a reader deadline to expire
 			}
 			if noise && !orderly && rapid.IntRange(0, 3).Draw(t, "wd?") == 0 {
 				w.DeadlineMS = rapid.IntRange(1, 20).Draw(t, "wdl")
@@ -567,7 +582,7 @@ func genC39Stream(t *rapid.T) c39Stream {
 			pl.ReadYields = append(pl.ReadYields, rapid.IntRange(0, 3).Draw(t, "ry"))
 			dl := 0
 			if noise && rapid.IntRange(0, 2).Draw(t, "rd?") == 0 {
-				dl = rapid.IntRange(1, 20).Draw(t, "rdl")
+				dl = rapid.OneOf(rapid.IntRange(1, 3), rapid.IntRange(1, 20)).Draw(t, "rdl")
 			}
 			pl.ReadDeadlineMS = append(pl.ReadDeadlineMS, dl)
 		}
